@@ -8,6 +8,7 @@ import (
 	"bufio"
 	"bytes"
 	"context"
+	"encoding/hex"
 	"fmt"
 	"io"
 	"net/http"
@@ -34,6 +35,24 @@ type outSpec struct {
 
 func (s outSpec) String() string {
 	return fmt.Sprintf("windows=%s order=%v sel=%s unload=%d", pattern(s.Windows), s.Order, s.Sel, s.Unload)
+}
+
+// variant: what may differ between the routes of one booted configuration
+// (the secrets block — windows, loadability — is shared).
+type variant struct {
+	Sel   string
+	Order []int
+}
+
+// allVariants: selection {absent, newest_valid, oldest_valid} x every order of the secret_ref lines; selection-major.
+func allVariants(n int) []variant {
+	var out []variant
+	for _, sel := range selections {
+		for _, p := range permutations(n) {
+			out = append(out, variant{sel, p})
+		}
+	}
+	return out
 }
 
 // bootSeq makes the (in-memory, placeholder) listen addresses of every boot of
@@ -76,27 +95,32 @@ const (
 	retryLongLine = "    retry exponential max 1 base 1h cap 1h jitter 0\n"
 )
 
-func outDSL(s outSpec, worker int) string {
+// routeOf: the route that carries variant vi with header-name scheme h (index into outRoutes).
+func routeOf(vi, h int) string { return fmt.Sprintf("/o/v%d%s", vi, outRoutes[h].Route) }
+
+func outDSL(windows []win, unload, worker int, vars []variant) string {
 	var b strings.Builder
 	b.WriteString(listenBlock())
-	b.WriteString(secretsBlock(s.Windows, s.Unload, worker))
-	for _, rt := range outRoutes {
-		fmt.Fprintf(&b, "%s {\n  deliver_concurrency 1\n", rt.Route)
-		for _, p := range urlPaths {
-			fmt.Fprintf(&b, "  deliver %q {\n", targetOrigin+p.Raw)
-			b.WriteString(retryLongLine)
-			for _, vi := range s.Order {
-				fmt.Fprintf(&b, "    sign hmac secret_ref %q\n", ids[vi])
+	b.WriteString(secretsBlock(windows, unload, worker))
+	for vi, v := range vars {
+		for h, rt := range outRoutes {
+			fmt.Fprintf(&b, "%s {\n  deliver_concurrency 1\n", routeOf(vi, h))
+			for _, p := range urlPaths {
+				fmt.Fprintf(&b, "  deliver %q {\n", targetOrigin+p.Raw)
+				b.WriteString(retryLongLine)
+				for _, x := range v.Order {
+					fmt.Fprintf(&b, "    sign hmac secret_ref %q\n", ids[x])
+				}
+				if v.Sel != modeDefault {
+					fmt.Fprintf(&b, "    sign secret_selection %s\n", v.Sel)
+				}
+				if rt.CfgSig != "" {
+					fmt.Fprintf(&b, "    sign signature_header %q\n    sign timestamp_header %q\n", rt.CfgSig, rt.CfgTs)
+				}
+				b.WriteString("  }\n")
 			}
-			if s.Sel != "default" {
-				fmt.Fprintf(&b, "    sign secret_selection %s\n", s.Sel)
-			}
-			if rt.CfgSig != "" {
-				fmt.Fprintf(&b, "    sign signature_header %q\n    sign timestamp_header %q\n", rt.CfgSig, rt.CfgTs)
-			}
-			b.WriteString("  }\n")
+			b.WriteString("}\n")
 		}
-		b.WriteString("}\n")
 	}
 	// fixed targets: unsigned control, a direct (window-less) secret, a direct secret that cannot be loaded
 	fmt.Fprintf(&b, "/out/plain {\n  deliver %q {\n%s  }\n}\n", targetOrigin+"/control", retryLongLine)
@@ -129,30 +153,33 @@ type recorder struct {
 	mu   sync.Mutex
 	got  []seen
 	errs []string
+	buf  bytes.Buffer
+	rd   *bufio.Reader
 }
 
 func (rc *recorder) RoundTrip(req *http.Request) (*http.Response, error) {
-	var buf bytes.Buffer
-	s := seen{At: time.Now()}
-	if err := req.Write(&buf); err != nil {
-		rc.note("serialise: " + err.Error())
-	} else if rr, err := http.ReadRequest(bufio.NewReader(&buf)); err != nil {
-		rc.note("read back: " + err.Error())
-	} else {
-		body, _ := io.ReadAll(rr.Body)
-		s.Method, s.Target, s.Header, s.Body = rr.Method, rr.RequestURI, rr.Header, body
-	}
 	rc.mu.Lock()
+	defer rc.mu.Unlock()
+	rc.buf.Reset()
+	s := seen{At: time.Now()}
+	if err := req.Write(&rc.buf); err != nil {
+		rc.errs = append(rc.errs, "serialise: "+err.Error())
+	} else {
+		if rc.rd == nil {
+			rc.rd = bufio.NewReader(&rc.buf)
+		} else {
+			rc.rd.Reset(&rc.buf)
+		}
+		if rr, err := http.ReadRequest(rc.rd); err != nil {
+			rc.errs = append(rc.errs, "read back: "+err.Error())
+		} else {
+			body, _ := io.ReadAll(rr.Body)
+			s.Method, s.Target, s.Header, s.Body = rr.Method, rr.RequestURI, rr.Header, body
+		}
+	}
 	rc.got = append(rc.got, s)
-	rc.mu.Unlock()
 	return &http.Response{StatusCode: 200, Status: "200 OK", Proto: "HTTP/1.1", ProtoMajor: 1, ProtoMinor: 1,
 		Header: http.Header{}, Body: http.NoBody, Request: req}, nil
-}
-
-func (rc *recorder) note(s string) {
-	rc.mu.Lock()
-	rc.errs = append(rc.errs, s)
-	rc.mu.Unlock()
 }
 
 func (rc *recorder) take() []seen {
@@ -163,11 +190,18 @@ func (rc *recorder) take() []seen {
 	return g
 }
 
-// ---- environment of one configuration ---------------------------------------
+func (rc *recorder) problems() []string {
+	rc.mu.Lock()
+	defer rc.mu.Unlock()
+	return append([]string(nil), rc.errs...)
+}
+
+// ---- environment of one booted configuration --------------------------------
 
 type outEnv struct {
-	spec    outSpec
-	worker  int
+	windows []win
+	unload  int
+	vars    []variant
 	dsl     string
 	app     *app.VerifApp
 	pd      *dispatcher.PushDispatcher
@@ -177,18 +211,21 @@ type outEnv struct {
 	targets map[string]map[string]dispatcher.TargetConfig // route -> url -> target
 }
 
+func (e *outEnv) spec(vi int) outSpec {
+	return outSpec{Windows: e.windows, Order: e.vars[vi].Order, Sel: e.vars[vi].Sel, Unload: e.unload}
+}
+
 // bootOut boots the application with the configuration and builds the
 // dispatcher as run() does. useNowSeam: drive the deliverer's clock through
 // its exported Now field (otherwise it stays time.Now).
-func bootOut(s outSpec, worker int, useNowSeam bool) (*outEnv, error) {
-	e := &outEnv{spec: s, worker: worker, dsl: outDSL(s, worker), rec: &recorder{}}
-	os.Unsetenv(neverSetEnv)
-	if s.Unload >= 0 {
-		os.Setenv(envName(worker, s.Unload), envValue(s.Unload))
+func bootOut(windows []win, unload, worker int, vars []variant, useNowSeam bool) (*outEnv, error) {
+	e := &outEnv{windows: windows, unload: unload, vars: vars, dsl: outDSL(windows, unload, worker, vars), rec: &recorder{}}
+	if unload >= 0 {
+		os.Setenv(envName(worker, unload), envValue(unload))
 	}
-	a, err := app.VerifBoot(app.VerifBootOptions{Dir: fmt.Sprintf("%s/w%d", runner.Scratch(), worker), ConfigText: e.dsl, Store: queue.NewMemoryStore()})
-	if s.Unload >= 0 {
-		os.Unsetenv(envName(worker, s.Unload)) // from here on the ref cannot be loaded
+	a, err := bootRaw(e.dsl, worker)
+	if unload >= 0 {
+		os.Unsetenv(envName(worker, unload)) // from here on the ref cannot be loaded
 	}
 	if err != nil {
 		return nil, err
@@ -264,6 +301,15 @@ func tieDirOf(group []int, pick int) string {
 	return tieMiddle
 }
 
+func member(group []int, i int) bool {
+	for _, g := range group {
+		if g == i {
+			return true
+		}
+	}
+	return false
+}
+
 // judge compares what the target received with the reference for a delivery
 // signed at `at` under spec s. names: the header names the configuration asks
 // for. It returns the version that signed (or pickNone), the tie direction
@@ -271,69 +317,61 @@ func tieDirOf(group []int, pick int) string {
 func judge(s outSpec, at time.Time, names headerNames, got []seen) (pick int, tie string, fl *failure) {
 	atNs := at.UnixNano()
 	group := refGroup(s.Windows, s.Sel, atNs)
-	inGroup := func(i int) bool {
-		for _, g := range group {
-			if g == i {
-				return true
-			}
-		}
-		return false
-	}
 	mustNotSend := len(group) == 0 || (len(group) == 1 && group[0] == s.Unload)
-	ctx := fmt.Sprintf("%s clock=%s", s, at.Format(time.RFC3339Nano))
+	ctx := func() string { return fmt.Sprintf("%s clock=%s", s, at.Format(time.RFC3339Nano)) }
 
 	if len(got) == 0 {
 		switch {
 		case mustNotSend:
 			return pickNone, noTie, nil
-		case s.Unload >= 0 && inGroup(s.Unload):
+		case s.Unload >= 0 && member(group, s.Unload):
 			// a tie whose winner cannot be loaded: not sending means the unloadable member was the pick
 			d := tieDirOf(group, s.Unload)
 			if d == tieMiddle {
-				return pickFailed, d, &failure{"out:tie-not-by-id", "nothing sent, i.e. the pick among tied versions " + fmt.Sprint(group) + " was the unloadable one, which has neither the smallest nor the largest id; " + ctx}
+				return pickFailed, d, &failure{"out:tie-not-by-id", "nothing sent, i.e. the pick among tied versions " + fmt.Sprint(group) + " was the unloadable one, which has neither the smallest nor the largest id; " + ctx()}
 			}
 			return pickNone, d, nil
 		}
-		return pickFailed, noTie, &failure{"out:not-sent-though-valid-version-exists:" + s.Sel, "no request reached the target although version(s) " + fmt.Sprint(group) + " are valid and loadable; " + ctx}
+		return pickFailed, noTie, &failure{"out:not-sent-though-valid-version-exists:" + s.Sel, "no request reached the target although version(s) " + fmt.Sprint(group) + " are valid and loadable; " + ctx()}
 	}
 	if len(got) > 1 {
-		return pickFailed, noTie, &failure{"out:sent-more-than-once", fmt.Sprintf("%d requests for one delivery; %s", len(got), ctx)}
+		return pickFailed, noTie, &failure{"out:sent-more-than-once", fmt.Sprintf("%d requests for one delivery; %s", len(got), ctx())}
 	}
 	g := got[0]
 	if len(group) == 0 {
-		return pickFailed, noTie, &failure{"out:sent-without-valid-version:" + s.Sel, "a request was sent although no version is valid at signing time; " + ctx}
+		return pickFailed, noTie, &failure{"out:sent-without-valid-version:" + s.Sel, "a request was sent although no version is valid at signing time; " + ctx()}
 	}
 	unix := unixFloor(atNs)
 	if ts := g.Header.Get(names.Ts); ts != strconv.FormatInt(unix, 10) {
-		return pickFailed, noTie, &failure{"out:timestamp-header", fmt.Sprintf("header %s = %q, want unix seconds of the signing time %d; %s", names.Ts, ts, unix, ctx)}
+		return pickFailed, noTie, &failure{"out:timestamp-header", fmt.Sprintf("header %s = %q, want unix seconds of the signing time %d; %s", names.Ts, ts, unix, ctx())}
 	}
 	sig := g.Header.Get(names.Sig)
+	msg := []byte(strings.ToUpper(g.Method) + "\n" + g.path() + "\n" + strconv.FormatInt(unix, 10) + "\n" + hexSHA256(g.Body))
 	pick = pickFailed
 	for i := range s.Windows {
 		val := secretValues[i]
 		if i == s.Unload {
 			val = envValue(i)
 		}
-		if sig == refOutboundSig([]byte(val), g.Method, g.path(), unix, g.Body) {
+		if sig == hex.EncodeToString(refHMAC([]byte(val), msg)) {
 			pick = i
 		}
 	}
 	if pick == pickFailed {
-		return pickFailed, noTie, &failure{"out:signature-matches-no-version:" + g.path(), fmt.Sprintf("header %s = %q is not the reference HMAC of (%s, %s, %d, sha256 of the %d body bytes sent) under any configured version; %s", names.Sig, sig, g.Method, g.path(), unix, len(g.Body), ctx)}
+		return pickFailed, noTie, &failure{"out:signature-matches-no-version:" + g.path(), fmt.Sprintf("header %s = %q is not the reference HMAC of (%s, %s, %d, sha256 of the %d body bytes sent) under any configured version; %s", names.Sig, sig, g.Method, g.path(), unix, len(g.Body), ctx())}
 	}
 	w := s.Windows[pick]
 	switch {
 	case atNs < lat(w.From).UnixNano():
-		return pickFailed, noTie, &failure{"out:signed-with-not-yet-valid-version", fmt.Sprintf("signed with %s (%s) before its valid_from; %s", ids[pick], w, ctx)}
+		return pickFailed, noTie, &failure{"out:signed-with-not-yet-valid-version", fmt.Sprintf("signed with %s (%s) before its valid_from; %s", ids[pick], w, ctx())}
 	case !refValid(w, atNs):
-		return pickFailed, noTie, &failure{"out:signed-with-expired-version", fmt.Sprintf("signed with %s (%s) at or after its valid_until; %s", ids[pick], w, ctx)}
-	case !inGroup(pick):
-		return pickFailed, noTie, &failure{"out:picked-against-rule:" + s.Sel, fmt.Sprintf("signed with %s (%s) but the rule selects among %v; %s", ids[pick], w, group, ctx)}
+		return pickFailed, noTie, &failure{"out:signed-with-expired-version", fmt.Sprintf("signed with %s (%s) at or after its valid_until; %s", ids[pick], w, ctx())}
+	case !member(group, pick):
+		return pickFailed, noTie, &failure{"out:picked-against-rule:" + s.Sel, fmt.Sprintf("signed with %s (%s) but the rule selects among %v; %s", ids[pick], w, group, ctx())}
 	}
-	if d := tieDirOf(group, pick); d == tieMiddle {
-		return pickFailed, d, &failure{"out:tie-not-by-id", fmt.Sprintf("tie %v broken in favour of %s, neither smallest nor largest id; %s", group, ids[pick], ctx)}
-	} else {
-		tie = d
+	tie = tieDirOf(group, pick)
+	if tie == tieMiddle {
+		return pickFailed, tie, &failure{"out:tie-not-by-id", fmt.Sprintf("tie %v broken in favour of %s, neither smallest nor largest id; %s", group, ids[pick], ctx())}
 	}
 	// (a pick equal to s.Unload means the value read at boot was kept; the text does not forbid that)
 	return pick, tie, nil
@@ -358,16 +396,16 @@ func (e *outEnv) deliver(route, url string, sh shape, names headerNames, at time
 	return e.rec.take(), nil
 }
 
-// evalCase: one element of the outbound product.
-func (e *outEnv) evalCase(sh shape, clk instant) (pick int, tie string, fl *failure, infra error) {
+// evalCase: one element of the outbound product (variant vi of the booted configuration).
+func (e *outEnv) evalCase(vi int, sh shape, clk instant) (pick int, tie string, fl *failure, infra error) {
 	rt := outRoutes[sh.Route]
-	got, err := e.deliver(rt.Route, targetOrigin+urlPaths[sh.Path].Raw, sh, rt.Expected, clk.At)
+	got, err := e.deliver(routeOf(vi, sh.Route), targetOrigin+urlPaths[sh.Path].Raw, sh, rt.Expected, clk.At)
 	if err != nil {
 		return pickFailed, noTie, nil, err
 	}
 	if len(got) == 1 && got[0].path() != urlPaths[sh.Path].Wire {
-		return pickFailed, noTie, nil, fmt.Errorf("net/http put %q on the wire for %q, the hand-written table expects %q", got[0].Target, urlPaths[sh.Path].Raw, urlPaths[sh.Path].Wire)
+		return pickFailed, noTie, nil, fmt.Errorf("net/http put %q on the wire for %q (%v), the hand-written table expects %q", got[0].Target, urlPaths[sh.Path].Raw, e.rec.problems(), urlPaths[sh.Path].Wire)
 	}
-	pick, tie, fl = judge(e.spec, clk.At, rt.Expected, got)
+	pick, tie, fl = judge(e.spec(vi), clk.At, rt.Expected, got)
 	return pick, tie, fl, nil
 }
